@@ -412,9 +412,7 @@ def _o_chain_toy(w):
             if Q not in Rs:
                 return False, f"signer's key {Q} not among recover_pub_keys_ {Rs}"
             for R in Rs:
-                if R[1] == 0:
-                    continue   # a y = 0 "key": the open finding `recover-returns-y0-point`, oracle recoverall.valid_keys
-                if not dsa.verify_(m, R, sig):
+                if R[1] == 0 or not dsa.verify_(m, R, sig):   # y = 0: regression of `recover-returns-y0-point` (fae8d2e3)
                     return False, f"recovered key {R} does not verify r={sig.r} s={sig.s}"
         out.append(f"{sig.r},{sig.s},{kid}")
     return True, " ".join(out)
@@ -584,6 +582,80 @@ def _o_recoverall_valid(w):
     return True, "ok"
 
 
+def _hmac_ref(hashfn, key: bytes, msg: bytes) -> bytes:
+    """HMAC written from RFC 2104 (no use of the hmac module)."""
+    B = hashfn().block_size
+    if len(key) > B:
+        key = hashfn(key).digest()
+    key = key + bytes(B - len(key))
+    inner = hashfn(bytes(x ^ 0x36 for x in key) + msg).digest()
+    return hashfn(bytes(x ^ 0x5C for x in key) + inner).digest()
+
+
+def rfc6979_ref(x: int, h1: int, q: int, hashfn, extra: bytes = b""):
+    """RFC 6979 section 3.2 (with 3.6 additional data), written from the RFC text: (k, number of refused candidates).
+    `h1` is bits2int(H(m)) mod q, as btclib's `c`."""
+    qlen = q.bit_length()
+    rlen = (qlen + 7) // 8
+    hlen = hashfn().digest_size
+
+    def bits2int(b: bytes) -> int:
+        v = int.from_bytes(b, "big")
+        return v >> (8 * len(b) - qlen) if 8 * len(b) > qlen else v
+    seed = x.to_bytes(rlen, "big") + h1.to_bytes(rlen, "big") + extra      # int2octets(x) || bits2octets(h1) || k'
+    V = b"\x01" * hlen                                                      # b
+    K = b"\x00" * hlen                                                      # c
+    K = _hmac_ref(hashfn, K, V + b"\x00" + seed)                            # d
+    V = _hmac_ref(hashfn, K, V)                                             # e
+    K = _hmac_ref(hashfn, K, V + b"\x01" + seed)                            # f
+    V = _hmac_ref(hashfn, K, V)                                             # g
+    refused = 0
+    while True:                                                             # h
+        T = b""
+        while 8 * len(T) < qlen:                                            # h.2: every block of T is a FRESH V
+            V = _hmac_ref(hashfn, K, V)
+            T += V
+        k = bits2int(T)                                                     # h.3
+        if 1 <= k < q:
+            return k, refused
+        refused += 1
+        K = _hmac_ref(hashfn, K, V + b"\x00")                               # V here is the LAST block of T
+        V = _hmac_ref(hashfn, K, V)
+
+
+HF_ALL = {"sha256": hashlib.sha256, "sha1": hashlib.sha1, "sha512": hashlib.sha512, "sha224": hashlib.sha224,
+          "sha384": hashlib.sha384}
+
+
+def _o_rfc6979_ref(w):
+    """btclib's RFC 6979 nonce equals an independent derivation written from the RFC text (names the failing input,
+    in particular when the first candidate is refused and T spans several hash blocks)."""
+    ec, hf = curve(w["curve"]), HF_ALL[w["hf"]]
+    c, q, extra = w["c"], w["q"], bytes.fromhex(w["extra"])
+    want, refused = rfc6979_ref(q, c, ec.n, hf, extra)
+    got = _rfc6979_nonce_(c, q, ec, hf, extra or None)
+    blocks = -(-ec.n_size // hf().digest_size)
+    if got != want:
+        return False, (f"_rfc6979_nonce_(c={c}, q={q}, {w['curve']}, {w['hf']}, extra={w['extra'] or None}) = {got}, "
+                       f"RFC 6979 gives {want} ({refused} candidate(s) refused, T of {blocks} block(s))")
+    if "m" in w:
+        from btclib.ecc.rfc6979_nonce import rfc6979_nonce_
+        m = bytes.fromhex(w["m"])
+        c2 = challenge_(m, ec, hf)
+        pub = rfc6979_nonce_(m, q, ec, hf, extra or None)
+        want2, _ = rfc6979_ref(q, c2, ec.n, hf, extra)
+        if pub != want2:
+            return False, f"rfc6979_nonce_(m={w['m']}, q={q}, {w['curve']}, {w['hf']}) = {pub}, RFC 6979 gives {want2}"
+        if 0 < c2:
+            sig = dsa.sign_(m, q, None, False, ec, hf, grind=False) if extra == b"" else None
+            if sig is not None:
+                with serving(False):
+                    ref = dsa._sign_(c2, q, want2, False, ec)
+                if (sig.r, sig.s) != (ref.r, ref.s):
+                    return False, f"sign_(grind=False) does not use the RFC 6979 nonce on m={w['m']} q={q} {w['curve']}/{w['hf']}"
+    return True, f"refused={refused} blocks={blocks}"
+
+
 def _o_noncanon_toy(w):
     """a key written with x outside 0..p-1 is no key: verify_ may refuse it, never accept what the point refuses."""
     tok = w["curve"]
@@ -600,7 +672,7 @@ def _o_noncanon_toy(w):
 
 ORACLES = {k: _safe(v) for k, v in {
     "recover.valid_key": _o_recover_valid_key, "noncanon.toy": _o_noncanon_toy,
-    "recoverall.valid_keys": _o_recoverall_valid,
+    "recoverall.valid_keys": _o_recoverall_valid, "rfc6979.ref": _o_rfc6979_ref,
     "chain.toy": _o_chain_toy, "sec1.toy": _o_sec1_toy, "chain.pub": _o_chain_pub,
     "der.roundtrip": _o_der_roundtrip, "der.canonical": _o_der_canonical, "bms.chain": _o_bms}.items()}
 
@@ -873,13 +945,15 @@ def run(ctx):  # noqa: C901, PLR0912, PLR0915
                     t = ln.split(" ")
                     if out == "inf" or (out.startswith("ok") and " 0 " in out[2:] + " " and
                                         any(y == "0" for y in out.split(" ")[2::2])):
-                        # a "key" with y = 0 came back (2-torsion point / btclib's spelling of infinity): outside
-                        # the abstraction; it is a finding of its own on the real code
+                        # a "key" with y = 0 came back (2-torsion point / btclib's spelling of infinity): refused
+                        # since /repo fae8d2e3 like INF (the model's `isZero`); a reappearance is a property failure
+                        # under the regression key AND a stream mismatch (the line stays in the correspondence)
                         if t[0] == "ecdsa.recover":
                             ctx.check("recover.valid_key", {"curve": tok, "kid": int(t[2]), "c": int(t[3]), "r": int(t[4]),
                                                             "s": int(t[5])}, key="recover-returns-y0-point")
-                        ctx.count("recover_y0_key_oracle_only", name)
-                        continue
+                        else:
+                            ctx.oracle("recoverall.valid_keys", False, f"{ln} -> {out}: a listed key has y = 0",
+                                       key="recover-returns-y0-point")
                     kept.append((ln, out))
                     # soundness on arbitrary (r, s): a key that is answered satisfies the SEC 1 equation (group table)
                     if t[0] == "ecdsa.recover" and out.startswith("ok "):
@@ -927,9 +1001,12 @@ def run(ctx):  # noqa: C901, PLR0912, PLR0915
             batch.flush()
     batch.flush()
 
-    # the concrete input of the open finding `recover-returns-y0-point` (true cofactor-2 toy curve), both tiers
+    # the concrete inputs of the repaired finding `recover-returns-y0-point` (/repo fae8d2e3), kept as a regression
     ctx.check("recover.valid_key", {"curve": token("t23_13c2"), "kid": 1, "c": 1, "r": 3, "s": 2},
               key="recover-returns-y0-point")
+    ctx.check("recoverall.valid_keys", {"curve": token("t23_13c2"), "c": 1, "q": 8, "k": 6}, key="recover-returns-y0-point")
+    for w in ({"kid": 0, "c": 1, "r": 3, "s": 4}, {"kid": 2, "c": 2, "r": 1, "s": 1}, {"kid": -1, "c": 1, "r": 1, "s": 1}):
+        ctx.check("recover.valid_key", {"curve": token("t37_11c4"), **w}, key="recover-returns-y0-point")
 
     # ---- catalogued curves: random + boundary --------------------------------------------------
     names = ["secp256k1", "secp256r1", "secp112r2", "secp160r1", "secp384r1", "secp521r1"]
@@ -993,6 +1070,30 @@ def run(ctx):  # noqa: C901, PLR0912, PLR0915
         if thorough:
             batch.flush()
     batch.flush()
+
+    # ---- RFC 6979 against an independent derivation: hash shorter than the order (T of 2+ blocks) and orders just
+    # above a power of two (the first candidate is refused about every other time) first of all
+    pairs = [("secp160r1", "sha1"), ("secp160k1", "sha1"), ("secp224k1", "sha224"), ("secp256k1", "sha256"),
+             ("secp521r1", "sha256"), ("secp384r1", "sha1"), ("secp112r2", "sha512"), ("secp160r2", "sha1")]
+    nl = []
+    for cname, hname in pairs:
+        ec = curve(cname)
+        for i in range(ctx.n(40, 600)):
+            q = _scalars(rng, ec.n, 1)[0]
+            m = common.rand_bytes(rng, HF_ALL[hname]().digest_size)
+            extra = b"" if i % 3 else common.rand_bytes(rng, rng.choice([1, 32]))
+            w = {"curve": cname, "hf": hname, "c": challenge_(m, ec, HF_ALL[hname]), "q": q, "extra": extra.hex(), "m": m.hex()}
+            _, refused = rfc6979_ref(q, w["c"], ec.n, HF_ALL[hname], extra)
+            blocks = -(-ec.n_size // HF_ALL[hname]().digest_size)
+            ctx.count("rfc6979.ref", f"{cname}/{hname}: blocks={blocks} refused={'0' if refused == 0 else '1+'}")
+            ctx.check("rfc6979.ref", w)
+            if hname in HF:
+                nl.append(f"rfc.nonce {cname} {hname} {w['c']} {q} {hx(extra)}")
+    for cname, hname in pairs[:3]:
+        blocks_refused = [k for k in ctx.hist.get("rfc6979.ref", {}) if k.startswith(f"{cname}/{hname}: blocks=2 refused=1+")]
+        if not blocks_refused:
+            raise common.HarnessError(f"rfc6979.ref: no multi-block retry drawn on {cname}/{hname}")
+    ctx.stream("rfc6979.cat", nl)
 
     # ---- DER -----------------------------------------------------------------------------------
     cases = der_cases(rng, ctx.n(3000))
